@@ -10,33 +10,92 @@ TRACE_CFG = "SPECIFICATION TraceSpec\nCONSTANTS MaxBad = 100000\nCHECK_DEADLOCK 
 MC_CFG = "SPECIFICATION Spec\nCONSTANTS Rule = \"%s\"\nINVARIANTS RoundTrip%s\nCHECK_DEADLOCK FALSE\n"
 
 
-def judge(ctx, cases):
-    if not isinstance(cases, str):
-        p = os.path.join(ctx.scratch, "replay_cases_%d.ndjson" % ctx._n)
-        verif.write_ndjson(p, cases)
-        cases = p
+def run_and_validate(ctx, cases):
+    """cases: ndjson path -> (events as raw lines, TLC result)"""
     pb = ctx.build("script")
     trace = os.path.join(ctx.scratch, "trace_c14_%d.ndjson" % ctx._n)
     with open(cases, "rb") as fi, open(trace, "wb") as fo:
         ctx.run([pb, "c14exec"], stdin=fi, stdout=fo, timeout=3000)
     res = ctx.validate("TraceC14", trace, cfg=TRACE_CFG, chunk=20000, extra_files={"rx.ndjson": C12.rx_table(ctx)})
-    ctx._cells = getattr(ctx, "_cells", set()) | set(res["hits"])
     ctx.cov["evaluations"] += res["n"] * 4
-    lines = open(trace, "rb").readlines()
+    return open(trace, "rb").readlines(), res
+
+
+def shrink_paths(ctx, devs):
+    """devs: {(form, kind, case-json)}. Delta debugging on the fragment list against the real code, TLC judging every
+    candidate: a fragment is dropped while the same form still deviates in the same way. Returns {key: (case, bad, event)}
+    for the shrunk witnesses; the locus is then TLC's PathLocus of the shrunk expression."""
+    cur = {k: json.loads(k[2]) for k in devs}          # key -> current (smallest known deviating) case
+    info = {}
+    for _ in range(4):
+        cands = {}
+        for k, case in cur.items():
+            fr = case["fr"]
+            if len(fr) <= 1:
+                continue
+            for j in range(len(fr)):
+                c = dict(case, fr=fr[:j] + fr[j + 1:], cell="shrunk")
+                cands.setdefault(json.dumps(c, sort_keys=True), c)
+        if not cands:
+            break
+        p = os.path.join(ctx.scratch, "shrink_%d.ndjson" % ctx._n)
+        order = list(cands)
+        verif.write_ndjson(p, [cands[c] for c in order])
+        lines, res = run_and_validate(ctx, p)
+        bad = {}
+        for b in res["bad"]:
+            ev = json.loads(lines[b["i"] - 1])
+            bad[(b["form"], b["kind"], json.dumps(ev["case"], sort_keys=True))] = (b, ev)
+        progress = False
+        for k, case in list(cur.items()):
+            fr = case["fr"]
+            for j in range(len(fr)):
+                c = dict(case, fr=fr[:j] + fr[j + 1:], cell="shrunk")
+                hit = bad.get((k[0], k[1], json.dumps(c, sort_keys=True)))
+                if hit:
+                    cur[k] = c
+                    info[k] = hit
+                    progress = True
+                    break
+        if not progress:
+            break
+    return cur, info
+
+
+def judge(ctx, cases):
+    if not isinstance(cases, str):
+        p = os.path.join(ctx.scratch, "replay_cases_%d.ndjson" % ctx._n)
+        verif.write_ndjson(p, cases)
+        cases = p
+    lines, res = run_and_validate(ctx, cases)
+    ctx._cells = getattr(ctx, "_cells", set()) | set(res["hits"])
     recs = []
+    pathdev = {}
     for b in res["bad"]:
         ev = json.loads(lines[b["i"] - 1])
-        s1 = bytes(ev["s1"]).decode("utf-8", "replace")
-        s2 = bytes(ev["s2"]).decode("utf-8", "replace")
-        # locus: the generator cell (fragment kind / key class, position, neighbouring fragment kinds)
+        if ev["k"] == "path":
+            pathdev.setdefault((b["form"], b["kind"], json.dumps(ev["case"], sort_keys=True)), (b, ev))
+            continue
         cell = b["cell"]
-        if ev["k"] == "eq" and cell.startswith("parent="):
+        if cell.startswith("parent="):
             cell = "parent=%s left=%s right=%s" % tuple(b["tri"])
-        recs.append({"api": "jp." + b["form"], "kind": b["kind"], "locus": cell,
-                     "witness": {"printed": s1, "reprinted": s2, "parse_error": ev.get("pmsg") or None},
-                     "case": ev["case"],
-                     "detail": {"eval_original": ev["eo"][:4], "eval_reparsed": ev["er"][:4], "model": b["model"], "cell": b["cell"]}})
+        recs.append(record(b, ev, cell))
+    if pathdev:
+        shrunk, info = shrink_paths(ctx, pathdev)
+        for k, (b, ev) in pathdev.items():
+            sb, sev = info.get(k, (b, ev))
+            recs.append(record(sb, sev, sb["ploc"], orig=ev))
     return recs
+
+
+def record(b, ev, locus, orig=None):
+    s1 = bytes(ev["s1"]).decode("utf-8", "replace")
+    s2 = bytes(ev["s2"]).decode("utf-8", "replace")
+    return {"api": "jp." + b["form"], "kind": b["kind"], "locus": locus,
+            "witness": {"printed": s1, "reprinted": s2, "parse_error": ev.get("pmsg") or None},
+            "case": ev["case"],
+            "detail": {"eval_original": ev["eo"][:4], "eval_reparsed": ev["er"][:4], "model": b["model"], "cell": b["cell"],
+                       "found_as": bytes(orig["s1"]).decode("utf-8", "replace") if orig else None}}
 
 
 def main(ctx):
